@@ -1,7 +1,10 @@
 """C11 - failures are reported as documented and leave objects unchanged and usable.
 
-1. T3 (translate/errno_table.py) regenerates coq/Gen/ErrnoGen.v from src/vnaerr.h, vnaerr_verror.c,
-   vnaerr.3 and the four z0 accessors; Err/ContractProofs.v and Properties_C11.v are re-proved.
+1. T3 (translate/errno_table.py, translate/errno_orders.py) regenerates coq/Gen/ErrnoGen.v from src/vnaerr.h,
+   vnaerr_verror.c, vnaerr.3, the four z0 accessors and - for every modelled API function - the ORDER of its handle
+   tests, refusing argument checks, early exits and writes and whether its NULL test precedes every dereference;
+   coq/Err/*.v and Properties_C11.v are re-proved (the *_orders_checks_first theorems stop holding when a function
+   writes before it has finished checking).
 2. T3 validation: the generated table evaluated by the extracted model against the compiled
    _vnaerr_verror / _vnacal_error / _vnadata_error for every category value -1..8.
 3. Model tie: the extracted decision functions (argument-checking prologues of the vnadata family
@@ -26,19 +29,28 @@ MODEL_NAMES = {"SYS": None, "0": "0", "EINVAL": "EINVAL", "EDOM": "EDOM", "EBADM
 
 
 def run(ctx):
+    del cat.SKIPPED[:]
     ctx.level = "proof"
     ctx.trusted_base = [
         "Coq 8.16.1 kernel (coqc); vm_compute for the finite table comparison and the examples; no native_compute",
         "axioms: none (Print Assumptions: Closed under the global context for every theorem of Properties_C11.v)",
         "translator translate/errno_table.py (enum, switch, manual-page table, z0 port comparison operators), validated "
         "on every run against the compiled error reporters for category values -1..8",
-        "hand-written model coq/Err/ContractModel.v of the argument-checking prologues (vnadata family, vnacal query "
-        "family, add_calibration), tied by exhaustive small-scope correspondence with the library",
+        "translator translate/errno_orders.py (statement classifier: order of checks and writes, NULL / magic tests; its "
+        "tables PURE / MUTATOR / SYSTEM_FAIL of callees are hand-written), checked per run by the behavioural tie: "
+        "digest unchanged on every refused call, library does not return where the model says a NULL pointer is dereferenced",
+        "hand-written models coq/Err/ContractModel.v, NewModel.v, RefutedModel.v of what each check tests (vnadata family, "
+        "vnacal query family, add_calibration, vnacal_new family, parameter family, vnadata_convert, vnaproperty_vset on "
+        "map-key paths), tied by small-scope correspondence with the library",
+        "Section variables of coq/Err/*.v (ordinary premises): valid, unknown = _vnacal_get_parameter / parameter type; "
+        "work, pre = the abstracted mutations; payload = the rest of an object; effect = what a clean-up call does to errno",
         "hand-written reading of the manual pages: coq/Err/ErrBase.v (doc_errno), ContractModel.v (doc_data_valid, "
         "doc_query_refusal) and the expectation columns of checks/c11_catalogue.py",
         "extraction (ExtrOcamlBasic only) + ocaml/drv_err.ml; gcc, ASan/UBSan/LSan for the harness",
     ]
-    ctx.assumptions = ["C int arguments are modelled as Z (no wrap-around; D40 is outside the model)",
+    ctx.assumptions = ["C int arguments are modelled as Z (no wrap-around except the INT_MAX / rows test of vnadata_resize)",
+                       "a NULL object pointer is the only invalid handle modelled (None); a pointer to something else is outside "
+                       "the model; allocation failures (EvA events, C12) and failures inside the numeric kernels are outside it",
                        "the work behind a passed prologue is abstracted: only its effect on type/dimensions/z0 mode "
                        "(sum_after) and on the slot table is modelled"]
     ctx.rule = ("one evaluation = one (API function, argument class, object state) row run on the library, or one "
@@ -58,7 +70,14 @@ def run(ctx):
     if info is not None:
         ctx.extra["z0_port_test_strict"] = info["z0"]
         ctx.extra["add_common_prevalidates"] = info["add_common_prevalidates"]
-        ok, res = ctx.coq_obligations(["Err/ContractProofs.v", "Err/ContractProofs2.v", "Err/NewProofs.v", "Properties_C11.v"])
+        ctx.extra["generated_orders"] = dict((k, "".join(v)) for k, v in sorted(info["orders"].items()))
+        ctx.extra["functions_without_null_test"] = sorted(k for k, (n, m) in info["handles"].items() if not n
+                                                          and not k.startswith(("vnaproperty_", "vnacal_new_solve_internal")))
+        ctx.extra["functions_without_magic_test"] = sorted(k for k, (n, m) in info["handles"].items() if n and not m)
+        if info["order_notes"]:
+            ctx.notes.append("order translator: " + "; ".join(info["order_notes"]))
+        ok, res = ctx.coq_obligations(["Err/OrderProofs.v", "Err/ContractProofs.v", "Err/ContractProofs2.v", "Err/NewProofs.v",
+                                       "Err/DataGetters.v", "Properties_C11.v"])
         if not ok:
             log = getattr(ctx, "_last_coq_log", "")
             m = re.search(r'File "\./([^"]+)", line (\d+)', log)
@@ -84,6 +103,7 @@ def run(ctx):
     # ------------------------------------------------------------------ 4. catalogue
     cat.run_catalogue(ctx, runner)
 
+    ctx.extra["skipped"] = [{"what": w, "reason": r} for w, r in cat.SKIPPED]
     if runner.leak_reports:
         ctx.notes.append("LeakSanitizer reports seen while running the catalogue (memory leaks are property C03's "
                          "subject, not counted here): " + "; ".join(sorted(runner.leak_reports))[:600])
@@ -101,10 +121,10 @@ def run(ctx):
 
 def fresh_driver(ctx, info, broken):
     """The extracted driver contains the generated facts (errno table, z0 port operators, add_common
-    order); vplib's staleness test does not look at coq/Gen, so ask the executable which facts it was
-    extracted with and re-extract when they are not those of the working tree."""
+    order, the orders of checks and writes); ask the executable which facts it was extracted with and
+    re-extract when they are not those of the working tree."""
     want = "".join("1" if info["z0"][f] else "0" for f in errno_table.Z0_FILES) + (
-        "1" if info["add_common_prevalidates"] else "0")
+        "1" if info["add_common_prevalidates"] else "0") + "-%d" % info["orders_digest"]
     for attempt in (0, 1):
         try:
             drv = ctx.ocaml_driver("drv_err")
